@@ -289,6 +289,8 @@ func (st *State) convert(from, to types.Type, x Val) Val {
 			if pt, ok := fu.(*types.Pointer); ok {
 				if b, ok := pt.Elem().Underlying().(*types.Basic); ok && b.Kind() == types.Uint8 && p.Reg != nil {
 					p.ByteView = true
+				} else if p.Reg != nil {
+					p.Orig = pt.Elem()
 				}
 			}
 			return p
